@@ -18,6 +18,7 @@ EXTENDS Naturals, Sequences, FiniteSets, TLC
 
 CONSTANTS
   Senders, Receivers,   \* process ids (each starts with one handle of its side)
+  Closers,              \* processes without a handle of their own that may only call close() through a borrowed one
   Cap,                  \* capacity; UNB for unbounded
   MaxOps,               \* operations per process
   SpinMax,              \* abstraction of the 256 / 32 spin iterations of Signal::wait
@@ -29,8 +30,9 @@ CONSTANTS
   FIX                   \* TRUE: repaired code; FALSE: pinned tree (defects D1, D2, D4, D5, D6)
 
 UNB == 1000000
-Procs == Senders \cup Receivers
+Procs == Senders \cup Receivers \cup Closers
 NONE == "none"
+NOPROC == "none"        \* "no process" (lock holder, wake target); overridden by an integer in KanalTrace
 NOMSG == <<>>
 Final == {"UNLOCKED", "TERM"}
 
@@ -53,7 +55,6 @@ VARIABLES
 
 vars == <<C, S, L, token, woken, now, G>>
 
-Msgs == Procs \X (1..MaxOps)
 WakersOf(p) == {p} \X Wk
 
 \* ------------------------------------------------------------------ state update helpers
@@ -62,33 +63,37 @@ CSet(r) == C' = r @@ C
 SSet(t, r) == S' = [S EXCEPT ![t] = r @@ @]
 InWl(p) == \E k \in 1..Len(C.wl) : C.wl[k] = p
 Remove(s, p) == SelectSeq(s, LAMBDA x : x # p)
-IsSender(p) == p \in Senders
+IsSender(p) == p \in Senders \cup Closers
 WakePc(t) == IF S[t].kind = "async" THEN "ka_clone" ELSE "k_cas"
-Bump(f, m) == [f EXCEPT ![m] = @ + 1]
+Cnt(f, m) == IF m \in DOMAIN f THEN f[m] ELSE 0
+Bump(f, m) == (m :> Cnt(f, m) + 1) @@ f
+
+RECURSIVE BumpAll(_, _)
+BumpAll(f, s) == IF s = <<>> THEN f ELSE BumpAll(Bump(f, Head(s)), Tail(s))
 
 NilSig == [st |-> "NIL", kind |-> "sync", thr |-> FALSE, wk |-> NOMSG, slot |-> NOMSG]
 LInit == [pc |-> "idle", after |-> NONE, cont |-> NONE, opn |-> 0, kind |-> NONE, msg |-> NOMSG,
-          dl |-> 0, tgt |-> NONE, ti |-> 0, val |-> NOMSG, vec |-> <<>>, fin |-> NONE, cw |-> NOMSG,
+          dl |-> 0, tgt |-> NOPROC, ti |-> 0, val |-> NOMSG, vec |-> <<>>, fin |-> NONE, cw |-> NOMSG,
           csk |-> "op", ctx |-> "poll", fst |-> "None", curw |-> NOMSG, spur |-> 0, spin |-> 0,
           waits |-> 0, res |-> NONE, hs |-> 1, wtmp |-> NOMSG, cnt |-> 0]
 
 Init ==
   /\ C = [queue |-> <<>>, wl |-> <<>>, rb |-> FALSE,
-          sc |-> Cardinality(Senders), rc |-> Cardinality(Receivers), lock |-> NONE]
+          sc |-> Cardinality(Senders), rc |-> Cardinality(Receivers), lock |-> NOPROC]
   /\ S = [p \in Procs |-> NilSig]
   /\ L = [p \in Procs |-> LInit]
   /\ token = [p \in Procs |-> FALSE] /\ woken = {} /\ now = 0
-  /\ G = [delivered |-> [m \in Msgs |-> 0], dropped |-> [m \in Msgs |-> 0], created |-> {}, order |-> <<>>]
+  /\ G = [delivered |-> <<>>, dropped |-> <<>>, created |-> {}, order |-> <<>>]
 
 \* =========================================================================
 \* operation start (the public call is entered; no hook yet)
 \* =========================================================================
-Begin(p, k, d) ==
+BeginM(p, k, d, mm) ==
   /\ L[p].pc = "idle" /\ L[p].opn < MaxOps /\ L[p].hs > 0
-  /\ k \in (IF IsSender(p) THEN SMenu ELSE RMenu)
+  /\ k \in (IF p \in Closers THEN {"close"} ELSE IF IsSender(p) THEN SMenu ELSE RMenu)
   /\ IF k \in TimedKinds THEN now + d <= MaxNow ELSE d = 0
-  /\ LET m == IF k \in SendKinds THEN <<p, L[p].opn + 1>> ELSE NOMSG
-         first == IF k \in AsyncKinds THEN "f_idle" ELSE IF k \in TimedKinds THEN "now0" ELSE "lock" IN
+  /\ LET m == IF k \in SendKinds THEN mm ELSE NOMSG
+         first == IF k = "noop" THEN "ret" ELSE IF k \in AsyncKinds THEN "f_idle" ELSE IF k \in TimedKinds THEN "now0" ELSE "lock" IN
      /\ LSet(p, [pc |-> first, kind |-> k, msg |-> m, opn |-> L[p].opn + 1, dl |-> d, res |-> NONE,
                  csk |-> "op", spur |-> 0, spin |-> 0, waits |-> 0, curw |-> NOMSG, ctx |-> "poll",
                  vec |-> <<>>, val |-> NOMSG,
@@ -99,6 +104,8 @@ Begin(p, k, d) ==
                                                          slot |-> IF k = "asend" THEN m ELSE NOMSG]]
              ELSE S
   /\ UNCHANGED <<C, token, woken, now>>
+
+Begin(p, k, d) == BeginM(p, k, d, <<p, L[p].opn + 1>>)
 
 \* the clock may advance at any moment
 Tick == /\ now < MaxNow /\ now' = now + 1 /\ UNCHANGED <<C, S, L, token, woken, G>>
@@ -280,28 +287,28 @@ Body(p) ==
     [] k = "len" -> ObsBody(p)
 
 Lock(p) ==
-  /\ L[p].pc = "lock" /\ C.lock = NONE
+  /\ L[p].pc = "lock" /\ C.lock = NOPROC
   /\ LET b == Body(p) IN
      /\ C' = b.c @@ [C EXCEPT !.lock = p]
      /\ LSet(p, b.l)
      /\ S' = IF b.s = <<>> THEN S ELSE [S EXCEPT ![p] = b.s]
      \* close destroys the buffered values under the lock (queue.clear())
      /\ G' = IF "queue" \in DOMAIN b.c /\ L[p].kind = "close" /\ L[p].csk = "op"
-             THEN [G EXCEPT !.dropped = [m \in Msgs |-> @[m] + Cardinality({j \in 1..Len(C.queue) : C.queue[j] = m})]]
+             THEN [G EXCEPT !.dropped = BumpAll(@, C.queue)]
              ELSE IF "o" \in DOMAIN b THEN [G EXCEPT !.order = @ \o b.o]   \* hand-out order is fixed under the lock
              ELSE G
   /\ UNCHANGED <<token, woken, now>>
 
 \* try_acquire_internal fails: the realtime variants give up after one CAS (lib.rs try_*_realtime)
 TryLockFail(p) ==
-  /\ L[p].pc = "lock" /\ C.lock # NONE /\ L[p].kind \in RTKinds
+  /\ L[p].pc = "lock" /\ C.lock # NOPROC /\ L[p].kind \in RTKinds
   /\ LSet(p, [pc |-> IF L[p].kind = "try_send_rt" THEN "dropdata" ELSE "ret",
               res |-> IF L[p].kind = "try_send_rt" THEN "Full" ELSE "Empty"])
   /\ UNCHANGED <<C, S, token, woken, now, G>>
 
 Unlock(p) ==
   /\ L[p].pc = "unlock" /\ C.lock = p
-  /\ CSet([lock |-> NONE]) /\ LSet(p, [pc |-> L[p].after])
+  /\ CSet([lock |-> NOPROC]) /\ LSet(p, [pc |-> L[p].after])
   /\ UNCHANGED <<S, token, woken, now, G>>
 
 \* register_waker at registration (poll in state Zero): FIELD_WRITE, then waker clone, then push to the list
@@ -367,7 +374,7 @@ ApplyTail(p, extraL) ==
   /\ C' = t.c @@ C
   /\ L' = [L EXCEPT ![p] = t.l @@ extraL @@ @]
   /\ G' = IF L[p].cont = "term" /\ L[p].ti >= Len(C.wl) /\ L[p].kind = "close"
-          THEN [G EXCEPT !.dropped = [m \in Msgs |-> @[m] + Cardinality({j \in 1..Len(C.queue) : C.queue[j] = m})]]
+          THEN [G EXCEPT !.dropped = BumpAll(@, C.queue)]
           ELSE IF L[p].cont = "drain" /\ C.wl # <<>> THEN [G EXCEPT !.order = Append(@, S[Head(C.wl)].slot)]
           ELSE G
 
@@ -411,8 +418,8 @@ WLoad0(p) ==
 WSpin(p) ==        \* yield_now_std(); load(Relaxed)
   /\ L[p].pc = "w_spin"
   /\ IF S[p].st \in Final THEN LSet(p, [pc |-> "w_done"])
-     ELSE IF L[p].spin < SpinMax THEN LSet(p, [spin |-> L[p].spin + 1])
-     ELSE LSet(p, [pc |-> "w_setthr"])
+     ELSE \/ L[p].spin < SpinMax /\ LSet(p, [spin |-> L[p].spin + 1])
+          \/ LSet(p, [pc |-> "w_setthr"])        \* the (abstracted) spin budget is used up
   /\ UNCHANGED <<C, S, token, woken, now, G>>
 WSetThr(p) ==      \* *waker.get() = Some(thread::current())
   /\ L[p].pc = "w_setthr" /\ SSet(p, [thr |-> TRUE]) /\ LSet(p, [pc |-> "w_cas"])
@@ -448,9 +455,12 @@ WDone(p) ==
 \* =========================================================================
 TwSpin1(p) ==      \* first phase (parallelism > 1): a bounded number of plain loads
   /\ L[p].pc = "tw_spin1"
-  /\ IF S[p].st \in Final THEN LSet(p, [pc |-> "w_done"])
-     ELSE \/ LSet(p, [pc |-> "tw_now"])
-          \/ L[p].spin < SpinMax /\ LSet(p, [spin |-> L[p].spin + 1])
+  \* a final state ends the wait; `false` (terminated) makes the caller ask is_terminated() next
+  /\ IF S[p].st \in Final THEN LSet(p, [pc |-> IF S[p].st = "UNLOCKED" THEN "w_done" ELSE "tw_isterm"])
+     ELSE L[p].spin < SpinMax /\ LSet(p, [spin |-> L[p].spin + 1])
+  /\ UNCHANGED <<C, S, token, woken, now, G>>
+TwSkip1(p) ==      \* the first phase is over (or skipped: reported parallelism 1); no hook
+  /\ L[p].pc = "tw_spin1" /\ LSet(p, [pc |-> "tw_now"])
   /\ UNCHANGED <<C, S, token, woken, now, G>>
 TwNow(p) ==        \* while Instant::now() < until
   /\ L[p].pc = "tw_now"
@@ -458,7 +468,7 @@ TwNow(p) ==        \* while Instant::now() < until
   /\ UNCHANGED <<C, S, token, woken, now, G>>
 TwLoad(p) ==       \* load(Relaxed) inside the loop
   /\ L[p].pc = "tw_load"
-  /\ LSet(p, [pc |-> IF S[p].st \in Final THEN "w_done" ELSE "tw_now"])
+  /\ LSet(p, [pc |-> IF S[p].st = "UNLOCKED" THEN "w_done" ELSE IF S[p].st = "TERM" THEN "tw_isterm" ELSE "tw_now"])
   /\ UNCHANGED <<C, S, token, woken, now, G>>
 TwFinal(p) ==      \* load(Acquire) == UNLOCKED after the loop
   /\ L[p].pc = "tw_final"
@@ -489,6 +499,8 @@ AbwLoad(p) ==      \* async_blocking_wait: spins / sleeps until the final state 
      ELSE IF S[p].st = "UNLOCKED" THEN LSet(p, [pc |-> IF k = "asend" THEN "ret" ELSE "dropval"])
      ELSE LSet(p, [pc |-> IF k = "asend" THEN "dropdata" ELSE "ret"])
   /\ UNCHANGED <<C, S, token, woken, now, G>>
+AbwSpin(p) ==      \* a load of async_blocking_wait that still sees a non-final state
+  /\ L[p].pc = "abw_load" /\ S[p].st \notin Final /\ UNCHANGED vars
 FResult(p) ==      \* Poll::Ready from the signal state
   /\ L[p].pc = "f_result"
   /\ LET k == L[p].kind IN
@@ -502,8 +514,6 @@ FResult(p) ==      \* Poll::Ready from the signal state
 \* =========================================================================
 \* endings
 \* =========================================================================
-RECURSIVE BumpAll(_, _)
-BumpAll(f, s) == IF s = <<>> THEN f ELSE BumpAll(Bump(f, Head(s)), Tail(s))
 Deliver(p) ==      \* the caller gets the value(s)
   /\ L[p].pc = "deliver"
   /\ G' = [G EXCEPT !.delivered = IF L[p].kind = "drain" THEN BumpAll(@, L[p].vec) ELSE Bump(@, L[p].val)]
@@ -521,7 +531,7 @@ DropData(p) ==     \* sender-side disposal: dropped, or handed back through the 
   /\ UNCHANGED <<C, S, token, woken, now>>
 Ret(p) ==          \* the public call returns; the frame / future with its signal is gone
   \* (a terminate loop clears the list only after its last wake: its finished entries are never used again)
-  /\ L[p].pc = "ret" /\ Assert(~InWl(p) \/ (C.lock # NONE /\ L[C.lock].cont = "term"), "returned while still listed")
+  /\ L[p].pc = "ret" /\ Assert(~InWl(p) \/ (C.lock # NOPROC /\ L[C.lock].cont = "term"), "returned while still listed")
   /\ S' = [S EXCEPT ![p] = NilSig]
   /\ LSet(p, [pc |-> IF L[p].kind = "drop" /\ L[p].hs = 1 THEN "gone" ELSE "idle", fst |-> "None",
               hs |-> IF L[p].kind = "drop" THEN L[p].hs - 1 ELSE IF L[p].kind = "clone" THEN L[p].hs + 1 ELSE L[p].hs])
@@ -535,7 +545,7 @@ Step(p) ==
   \/ ARead(p) \/ HandWrite(p) \/ KpRead(p)
   \/ KCas(p) \/ KClone(p) \/ KStore(p) \/ KUnpark(p) \/ KAClone(p) \/ KAStore(p) \/ KAWake(p)
   \/ WLoad0(p) \/ WSpin(p) \/ WSetThr(p) \/ WCas(p) \/ WPark(p) \/ WChk(p) \/ WDone(p)
-  \/ TwSpin1(p) \/ TwNow(p) \/ TwLoad(p) \/ TwFinal(p) \/ TwIsTerm(p)
+  \/ TwSpin1(p) \/ TwSkip1(p) \/ TwNow(p) \/ TwLoad(p) \/ TwFinal(p) \/ TwIsTerm(p)
   \/ FPend(p) \/ PwLoad(p) \/ PwWillWake(p) \/ AbwLoad(p) \/ FResult(p)
   \/ Deliver(p) \/ DropVal(p) \/ DropData(p) \/ Ret(p)
 
@@ -547,21 +557,21 @@ Spec == Init /\ [][Next]_vars
 \* =========================================================================
 InQueue(m) == \E j \in 1..Len(C.queue) : C.queue[j] = m
 \* C01 / C05: a message is never handed over or destroyed twice
-Once == \A m \in Msgs : G.delivered[m] + G.dropped[m] <= 1
+Once == \A m \in G.created : Cnt(G.delivered, m) + Cnt(G.dropped, m) <= 1
 \* C08: the buffer never exceeds the capacity
 CapOK == Len(C.queue) <= Cap
 \* shape of the waiting list the code relies on
 WaitShape ==
-  /\ (C.wl # <<>> /\ C.rb) => C.queue = <<>> \/ C.lock # NONE
-  /\ (C.wl # <<>> /\ ~C.rb) => Len(C.queue) = Cap \/ C.lock # NONE
+  /\ (C.wl # <<>> /\ C.rb) => C.queue = <<>> \/ C.lock # NOPROC
+  /\ (C.wl # <<>> /\ ~C.rb) => Len(C.queue) = Cap \/ C.lock # NOPROC
   /\ \A a, b \in 1..Len(C.wl) : a # b => C.wl[a] # C.wl[b]
   /\ \A a \in 1..Len(C.wl) : (C.wl[a] \in Receivers) = C.rb
 \* listed signals are armed, except while a terminate loop is walking the list (D4 breaks this)
 ListedAreArmed ==
   \A a \in 1..Len(C.wl) : S[C.wl[a]].st \in {"LOCKED", "STARV"}
-                          \/ (C.lock # NONE /\ L[C.lock].cont = "term")
+                          \/ (C.lock # NOPROC /\ L[C.lock].cont = "term")
 \* C10: closed is final
-ClosedShape == (C.sc = 0 /\ C.rc = 0) => (C.lock # NONE \/ (C.wl = <<>> /\ C.queue = <<>>))
+ClosedShape == (C.sc = 0 /\ C.rc = 0) => (C.lock # NOPROC \/ (C.wl = <<>> /\ C.queue = <<>>))
 \* C07 (design level): a claimer only touches a signal that is still alive and not yet finished by it
 Claiming(q) == L[q].pc \in {"hw", "kp_read", "k_cas", "k_clone", "k_store", "ka_clone", "ka_store"}
 NoAccessToDeadSignal == \A q \in Procs : Claiming(q) => S[L[q].tgt].st # "NIL"
@@ -576,7 +586,7 @@ TimeoutNotEarly == \A p \in Procs : L[p].res = "Timeout" => now >= L[p].dl
 TryNeverWaits == \A p \in Procs : L[p].kind \in TryKinds \cup {"drain"} =>
                     L[p].pc \notin {"w_load0", "w_spin", "w_setthr", "w_cas", "w_park", "w_chk", "tw_spin1", "tw_now", "f_pend"}
 \* C14 / C17: the lock holder always has a step (never parks / waits while holding the lock)
-LockHolderRuns == C.lock # NONE => ENABLED Step(C.lock)
+LockHolderRuns == C.lock # NOPROC => ENABLED Step(C.lock)
 
 \* terminal states: every process is finished or legitimately blocked; nothing leaked (C01, C05, C06)
 Terminal == \A p \in Procs : ~ENABLED Step(p)
@@ -584,7 +594,7 @@ Blocked(p) == \/ L[p].pc = "w_park" /\ S[p].st = "STARV" /\ InWl(p)
               \/ L[p].pc = "f_idle" /\ L[p].fst = "Waiting" /\ S[p].st = "LOCKED" /\ InWl(p)
 NoStuck == Terminal => \A p \in Procs : L[p].pc \in {"idle", "gone"} \/ Blocked(p)
 NoLeak == Terminal => \A m \in G.created :
-             \/ G.delivered[m] + G.dropped[m] = 1
+             \/ Cnt(G.delivered, m) + Cnt(G.dropped, m) = 1
              \/ InQueue(m)
              \/ \E p \in Procs : Blocked(p) /\ S[p].slot = m
 \* C02: deliveries respect the order in which the channel accepted the messages of one producer
